@@ -228,17 +228,32 @@ func runSolver(sd solverDef, file string, timeoutMS int, hard time.Duration) (st
 
 // parseResults extracts the sequence of check-sat answers.
 func parseResults(out string) []string {
-	var rs []string
+	// a solver error reported before a verdict invalidates that verdict (an ill-formed script must never be
+	// read as an answer); errors after the last verdict (e.g. get-model after unsat) are harmless
+	var rs0 []string
+	pendingErr := false
 	for _, ln := range strings.Split(out, "\n") {
-		ln = strings.TrimSpace(ln)
+		l := strings.TrimSpace(ln)
 		switch {
-		case ln == "sat" || ln == "unsat" || ln == "unknown" || ln == "timeout":
-			rs = append(rs, ln)
-		case strings.HasPrefix(ln, "(error") && strings.Contains(ln, "interrupted by timeout"):
-			rs = append(rs, "timeout")
+		case strings.HasPrefix(l, "(error") && strings.Contains(l, "timeout"):
+			rs0 = append(rs0, "timeout")
+		case strings.HasPrefix(l, "(error"):
+			if strings.Contains(l, "model is not available") || strings.Contains(l, "Cannot get model") || strings.Contains(l, "canceled") {
+				continue
+			}
+			pendingErr = true
+		case l == "sat" || l == "unsat" || l == "unknown" || l == "timeout":
+			if pendingErr {
+				rs0 = append(rs0, "error")
+			} else {
+				rs0 = append(rs0, l)
+			}
 		}
 	}
-	return rs
+	if pendingErr && len(rs0) == 0 {
+		return []string{"error"}
+	}
+	return rs0
 }
 
 func writeFile(dir, name, content string) string {
@@ -294,10 +309,16 @@ func raceSingle(vc *VC, ob *Obligation, cfg SolverCfg, fileBase string) *ObResul
 			res.Status, res.Solver, res.Seconds = "unsat", a.solver, a.secs
 			return res
 		}
-		if a.status == "sat" && (best == nil || best.status != "sat") {
-			best = &a
+		rank := func(st string) int {
+			switch st {
+			case "sat":
+				return 3
+			case "unknown", "timeout":
+				return 2
+			}
+			return 1
 		}
-		if best == nil {
+		if best == nil || rank(a.status) > rank(best.status) {
 			best = &a
 		}
 	}
